@@ -38,8 +38,10 @@ ARG0 = {'m': 7}          # a dict passed to apply as an argument (op kind 7 stor
 def mk_vars(a, b, frozen, with_cache):
   v = {'params': {'w': a, 'c': {'w': a + 1}},
        'stats': {'k': b, 'c': {'k': b + 1}}}
-  if with_cache:
+  if with_cache == 1:
     v['cache'] = {'k': 3}
+  elif with_cache == 2:
+    v['cache'] = {}                 # an empty placeholder collection
   return freeze(v) if frozen else v
 
 
@@ -211,7 +213,7 @@ def apply_same_slot(mi, a, b, x, n, k0, c0, n0, h0, k1, h1, k2, h2):
   """histories whose ops all aim at the same (collection, name) slot, on the root
   or the child scope"""
   z = lambda i, v: v if n > i else 0
-  return apply_contract(mi, mi % 2 == 1, mi % 3 == 0, a, b, x, n, k0, c0, n0, h0,
+  return apply_contract(mi, mi % 2 == 1, mi % 3, a, b, x, n, k0, c0, n0, h0,
                         k1, z(1, c0), z(1, n0), h1, k2, z(2, c0), z(2, n0), h2)
 
 
@@ -442,7 +444,7 @@ def obligations(tier):
               c2=I(0, 0), n2=I(0, 0), h2=I(0, 0))
   obs = [
       Ob('core_apply_single_op', apply_contract,
-         dict(mi=I(0, NMUT - 1), frozen=B(), with_cache=B(), a=I(-3, 3),
+         dict(mi=I(0, NMUT - 1), frozen=B(), with_cache=I(0, 2), a=I(-3, 3),
               b=I(-3, 3), x=I(-3, 3), n=I(0, 1), k0=kind, c0=col, n0=nm, h0=B(),
               **zero),
          split=('mi', 'k0'), timeout=600, funcs=F,
